@@ -4,6 +4,6 @@ From Coq Require Import List String ZArith Bool.
 From NL Require Import Life.RecordSyntax Life.RecordInterp Gen.RunRecord Life.RecordRun.
 Import ListNotations.
 
-Lemma good_D : forall  code look no script prev o,
-  good_run (mkRun (ChDied) code look no script prev) (FS.trace o).
-Proof. intros  code look no script prev. all_traces_good code look script. Qed.
+Lemma good_D : forall  code look no script prev ran o,
+  good_run (mkRun (ChDied) code look no script prev ran) (FS.trace o).
+Proof. intros  code look no script prev ran. all_traces_good code look script ran. Qed.
